@@ -358,6 +358,8 @@ def gen_rejection_workload(tape, spec, pil, extra_outputs=True, allow_threshold=
     else:
         qi = tape.int('thr_q', 1, 8)
         t = float(pil[min(len(pil) - 1, (len(pil) * qi) // 10)])
+        if tape.chance('accept_all_threshold', 1, 8):
+            t = tape.choice('huge_threshold', [float('inf'), 1e30])
         wl['objective'] = {'threshold': t}
     return wl
 
